@@ -412,4 +412,28 @@ example :
 example : ({ stack := [.builtin false, .loop, .condition], errexit := true, status := 1 } : St).applyErrexit
     = .continue_ := by decide
 
+/-- hypotheses of `subshell_errexit`, `pipeline_errexit` (with job control: the wrapper subshell),
+    `errexit_irrelevant_in_condition`, `script_stops_at_break`, `exit_trap_error_status` and
+    `exit_trap_runs_action_once` hold on non-trivial inputs -/
+example : (execList 10 (({ errexit := true } : St).push .subshell) [.mk (.mk false [.probe 1, .st 3]) []]).2 ≠ .outOfFuel := by
+  decide
+example : (execPipeMembers 10 ({ monitor := true, errexit := true } : St).enterJc [.st 0, .st 2] 0).2 = .continue_ ∧
+    ({ monitor := true, errexit := true } : St).enterJc.stack = [.subshell] := by decide
+example : ({ stack := [.builtin false, .condition], errexit := true } : St).stack.contains .condition = true := by decide
+example : ({ errexit := true } : St).trapDue = none ∧
+    (execList 10 ({ errexit := true } : St) [.mk (.mk false [.st 5]) [], .mk (.mk false [.probe 1]) []]).2
+      = .break_ (.exit none) := by decide
+example : (execList 10 (({ exitTrap := some [.mk (.mk false [.probe 99]) [], .mk (.mk false [.expErr]) []] } : St).push .trap)
+      [.mk (.mk false [.probe 99]) [], .mk (.mk false [.expErr]) []]).2 = .break_ (.interrupt (some 2)) := by decide
+example :
+    let script : List Line := [.cmds [.mk (.mk false [.trapExit [.mk (.mk false [.probe 99]) [], .mk (.mk false [.st 4]) []]]) []],
+                               .cmds [.mk (.mk false [.exit (some 3)]) []], .cmds [.mk (.mk false [.probe 1]) []]]
+    (runScript 30 {} script).2 = .break_ (.exit (some 3)) ∧
+    (runScript 30 {} script).1.exitTrap.isSome = true ∧
+    (runShell 30 {} script).1.trace = [(99, 3)] ∧ (runShell 30 {} script).1.status = 3 := by decide
+
+/- `abort_skips_exit_trap`: no program of this model's language produces `Divert::Abort` (only the `exec`
+   built-in does); the reachable form of the statement is `YashModel.Errexit.shell_tail` with its example
+   (`exec no_such_command` → `Abort`, the EXIT action does not run). -/
+
 end YashModel.Exec
